@@ -155,6 +155,43 @@ fn corridor(d: &Value) -> (Value, [u32; 2], [u32; 2], [u32; 2], [u32; 2]) {
     )
 }
 
+/// Diamond crossing: two independent single-track lines A and B of three links each whose middle links cross
+/// (declared mutually exclusive through link_idxs_lockout, both directions). Descriptor:
+/// {"topo":"diamond","a":[l1,l2,l3],"b":[l1,l2,l3],"v":[va,vb],"trains":[{"line":0|1,"dir":..,..}]}
+/// Returns (netdesc, per line [east orig, east dest, west orig, west dest]).
+fn diamond(d: &Value) -> (Value, [[u32; 4]; 2]) {
+    let a = ga(d, "a");
+    let b = ga(d, "b");
+    let vs = ga(d, "v");
+    let flip = |i: usize| 13 - i;
+    let mut out = vec![];
+    for i in 1..=12usize {
+        let f = if i <= 6 { i } else { flip(i) }; // forward twin
+        let line = (f - 1) / 3;
+        let pos = (f - 1) % 3;
+        let len = if line == 0 { &a[pos] } else { &b[pos] }.as_i64().unwrap();
+        let v = vs[line % vs.len()].as_i64().unwrap();
+        let (next, prev) = if i <= 6 {
+            (if pos < 2 { i + 1 } else { 0 }, if pos > 0 { i - 1 } else { 0 })
+        } else {
+            (if pos > 0 { flip(f - 1) } else { 0 }, if pos < 2 { flip(f + 1) } else { 0 })
+        };
+        // the two crossing links (2 and 5) and their flips lock each other out
+        let lockout: Vec<usize> = if pos == 1 {
+            let other = if line == 0 { 5 } else { 2 };
+            vec![other, flip(other)]
+        } else {
+            vec![]
+        };
+        out.push(json!({"len": len, "flip": flip(i), "next": next, "next_alt": 0, "prev": prev, "prev_alt": 0,
+            "lockout": lockout, "elevs": [[0, 0], [len, 0]], "head": true, "rs": [[0, len, v]]}));
+    }
+    (
+        json!({"oscale": 0.01, "vscale": 1, "escale": 100, "links": out}),
+        [[1, 3, flip(3) as u32, flip(1) as u32], [4, 6, flip(6) as u32, flip(4) as u32]],
+    )
+}
+
 fn t_ms(v: &Value) -> Value {
     match v.as_f64() {
         Some(x) => qi(x, MS),
@@ -219,7 +256,14 @@ fn project_snapshot(js: &str) -> Value {
 }
 
 fn exec(desc: &Value, tr: &mut Tracer) -> anyhow::Result<()> {
-    let (netd, eo, ed, wo, wd) = corridor(desc);
+    let is_diamond = desc.get("topo").and_then(|x| x.as_str()) == Some("diamond");
+    let (netd, eo, ed, wo, wd, lines) = if is_diamond {
+        let (n, l) = diamond(desc);
+        (n, [0u32; 2], [0u32; 2], [0u32; 2], [0u32; 2], l)
+    } else {
+        let (n, eo, ed, wo, wd) = corridor(desc);
+        (n, eo, ed, wo, wd, [[0u32; 4]; 2])
+    };
     let network = match build::network(&netd) {
         Ok(n) => n,
         Err(e) => {
@@ -258,7 +302,19 @@ fn exec(desc: &Value, tr: &mut Tracer) -> anyhow::Result<()> {
                 vec![two[b % 2]]
             }
         };
-        let (os_, ds_) = if east { (pickb(eo, bo), pickb(ed, bd)) } else { (pickb(wo, bo), pickb(wd, bd)) };
+        let (os_, ds_) = if is_diamond {
+            let l = lines[t.get("line").and_then(|x| x.as_u64()).unwrap_or(0) as usize % 2];
+            if east { (vec![l[0]], vec![l[1]]) } else { (vec![l[2]], vec![l[3]]) }
+        } else if east {
+            (pickb(eo, bo), pickb(ed, bd))
+        } else {
+            (pickb(wo, bo), pickb(wd, bd))
+        };
+        // per-train maximum speed (m/s): slower leaders, faster followers
+        let mut rv = rv.clone();
+        if let Some(v) = t.get("vmax").and_then(|x| x.as_f64()) {
+            rv.speed_max = uc::MPS * v;
+        }
         let lm = build::location_map(&os_, &ds_);
         let tc = TrainConfig::new(
             vec![rv.clone()],
@@ -394,8 +450,26 @@ fn gen(seed: u64, n: usize, tier: &str) -> Vec<Value> {
             // departures: ties, short gaps (below spacing), long gaps
             t += *r.pick(&[0i64, 0, 60, 240, 600, 1800, 3600]);
             if t < 120 { t = 120; } // departures near 0 are the known class F-C15-1 (materialised in known/)
-            trains.push(json!({"dir": if r.chance(1,2) {"E"} else {"W"}, "depart": t, "ncars": r.range(15, 90),
-                               "bo": r.range(0, 2), "bd": r.range(0, 2)}));
+            // one train in three is slow (5..12 m/s) and one in eight very long (up to 150 cars = 2.7 km)
+            let ncars = if r.chance(1, 8) { r.range(100, 150) } else { r.range(15, 90) };
+            let mut tr = json!({"dir": if r.chance(1,2) {"E"} else {"W"}, "depart": t, "ncars": ncars,
+                                "bo": r.range(0, 2), "bd": r.range(0, 2), "line": r.range(0, 1)});
+            if r.chance(1, 3) {
+                tr["vmax"] = json!(*r.pick(&[5i64, 8, 12]));
+            }
+            trains.push(tr);
+        }
+        if r.chance(1, 6) {
+            // diamond crossing with a long crossing link; trains of the two lines arrive close together
+            let mut ts = trains.clone();
+            for (i, t) in ts.iter_mut().enumerate() {
+                t["depart"] = json!(120 + (i as i64) * *r.pick(&[0i64, 40, 90, 300]));
+            }
+            let a1 = r.range(30, 80);
+            out.push(json!({"src":"gen","seed":seed,"k":k,"topo":"diamond","stages":[["M", 400]],"lockouts":true,
+                "a":[a1, r.range(15, 40), r.range(60, 120)],"b":[a1 + r.range(-6, 6), r.range(15, 40), r.range(60, 120)],
+                "v":[r.range(8, 20), r.range(8, 20)],"trains":ts}));
+            continue;
         }
         out.push(json!({"src":"gen","seed":seed,"k":k,"stages":stages,"lockouts":r.chance(1,2),"foul":2,
             "v":v,"grade":grade,"trains":trains}));
